@@ -78,7 +78,7 @@ func (c *RowContext) Thread() *Thread {
 // Constant ---------------------------------------------------------
 
 func (a *Constant) CanEvalRaw([]string) bool {
-	a.Packed = Pack(a.Val.(Packable))
+	a.Packed = PackValue(a.Val) // panics with "can't pack …" for e.g. a class or function
 	return true
 }
 
